@@ -468,6 +468,8 @@ class Check:
                 return
         if len(self.violations) >= 25:
             self.violations.append(None)
+            if os.environ.get("VERIF_VERBOSE"):
+                log("  (no replay written)", what)
             return
         n = len(self.violations) + 1
         path = os.path.join(REPLAYS, "%s-%s-%d.json" % (self.pid, self.tier, n))
@@ -479,6 +481,8 @@ class Check:
         self.violations.append(path)
         print("VIOLATION property=%s replay=%s" % (self.pid, path), flush=True)
         log("  ", what)
+        if os.environ.get("VERIF_VERBOSE") and finding_key:
+            log("   finding_key:", finding_key)
 
     def finish(self):
         self.cov["distinct_nontrivial"] = len(self._distinct)
